@@ -216,6 +216,10 @@ def dec(x, W=None):
         if "$w2d" in x:
             name, r0, r1, c0, c1 = x["$w2d"]
             return W["lw"][name].wells[r0:r1, c0:c1]
+        if "$enum" in x:
+            return rt.Labwares[x["$enum"]]  # a member of robotools' own str-enum of built-in labware names
+        if "$npstr" in x:
+            return np.str_(x["$npstr"])
         if "$wells" in x:
             return W["lw"][x["$wells"]].wells  # the labware's own well-ID array (the object itself, not a copy)
         if "$hex" in x:
